@@ -219,6 +219,40 @@ theorem nil_roundtrip (env : Env) (f g : Nat) (name : String) (ns : Option Strin
     (marshal env (g + 1) name ns (.builtin ty) true .none).map (decode env (f + 1) (.builtin ty) true) = [.none] := by
   simp [marshal, encType, henc, decode, typeAttr, postprocess, isNil, xsiNil]
 
+/-! ### one message part or many -/
+
+/-- the nodes a reply is decoded from and the members they are matched against (wrapped / rpc) -/
+theorem reply_no_parts (env : Env) (fuel : Nat) (op : Op) (body : List Info)
+    (hs : op.style ≠ .bare) (h0 : op.outs = []) : reply env fuel op none body = .none := by
+  unfold reply
+  cases hst : op.style <;> simp_all
+
+/-- **One single-occurrence part: its value**, decoded from the first node of the reply content
+(None when the content is empty). -/
+theorem reply_single_part (env : Env) (fuel : Nat) (op : Op) (w : Info) (rest : List Info) (rt : Member)
+    (hs : op.style ≠ .bare) (h1 : op.outs = [rt]) (hm : rt.unbounded = false) :
+    reply env fuel op none (w :: rest) =
+      (match w.kids with
+        | nd :: _ => decode env fuel rt.type false nd
+        | [] => .none) := by
+  unfold reply
+  cases hst : op.style <;> simp_all <;> (cases w.kids <;> rfl)
+
+/-- **One repeating part: always a list**, one entry per node, in document order — also for a
+single node and for none. -/
+theorem reply_repeating_part (env : Env) (fuel : Nat) (op : Op) (w : Info) (rest : List Info) (rt : Member)
+    (hs : op.style ≠ .bare) (h1 : op.outs = [rt]) (hm : rt.unbounded = true) :
+    reply env fuel op none (w :: rest) = .list (w.kids.map fun nd => decode env fuel rt.type false nd) := by
+  unfold reply
+  cases hst : op.style <;> simp_all
+
+/-- **Several parts: a composite `reply` object.** -/
+theorem reply_composite (env : Env) (fuel : Nat) (op : Op) (body : List Info) (a b : Member) (more : List Member)
+    (hs : op.style ≠ .bare) (h2 : op.outs = a :: b :: more) :
+    ∃ fields, reply env fuel op none body = .obj "reply" fields := by
+  unfold reply
+  cases hst : op.style <;> simp_all <;> exact ⟨_, rfl⟩
+
 /-! Non-vacuity / worked example on the environment of a derived type. -/
 def exEnv2 : Env :=
   { uris := ["urn:a"],
